@@ -139,7 +139,13 @@ func (sg *Getter) GetSamples(
 				if samples[i].IsEmpty() {
 					return errors.New("nil response")
 				}
-				return samples[i].Verify(header.DAH, request.RowIndex, request.ShareIndex)
+				err := samples[i].Verify(header.DAH, request.RowIndex, request.ShareIndex)
+				if err != nil {
+					// samples are returned to the caller even if the request fails as a whole,
+					// so a sample that failed verification must not stay in its slot
+					samples[i] = shwap.Sample{}
+				}
+				return err
 			}
 			return sg.executeRequest(ctx, logger, header, request.Name(), req, verify)
 		})
